@@ -7,6 +7,7 @@ package main
 import (
 	"fmt"
 	"go/token"
+	"go/types"
 	"strings"
 )
 
@@ -31,6 +32,13 @@ func structIn(val *Term, typ string) *Term {
 		if t.Op == "&" && len(t.A) == 1 && namedStruct(t.A[0].Typ) == typ {
 			hit = t.A[0]
 			return false
+		}
+		// a pointer parameter handed straight to the encoder stands for the struct it points to
+		if (t.Op == "with" || t.Op == "lit" || t.Op == "res" || (t.Op == "" && strings.HasPrefix(t.At, "P"))) && namedStruct(t.Typ) == typ && t.Typ != nil {
+			if _, isPtr := t.Typ.(*types.Pointer); isPtr || t.Op == "with" {
+				hit = t
+				return false
+			}
 		}
 		return true
 	})
